@@ -183,8 +183,8 @@ def part_widths(sh, res):
                 if w not in [x[1] for x in firsts]:
                     firsts.append((i + 1, w))
             expect = len(firsts) > 1
-            for route in ('table', 'csv', 'csv_comments', 'csv_rfc_multiline'):
-                if route != 'table' and (0 in ws):
+            for route in ('table', 'registry_from', 'join_table', 'csv', 'csv_comments', 'csv_rfc_multiline'):
+                if route.startswith('csv') and (0 in ws):
                     continue   # a zero-field record cannot be written as a CSV line (an empty line is one empty field)
                 warns = []
                 res.evaluations += 1
@@ -194,6 +194,12 @@ def part_widths(sh, res):
                 try:
                     if route == 'table':
                         eng.query_table('select NR', [list(r) for r in A], [], warns)
+                    elif route == 'registry_from':
+                        # no fixed input iterator: the table is found through FROM in a user registry; its anomalies are still the input table's
+                        eng.query('select NR from t', None, eng.TableWriter([]), warns, eng.ListTableRegistry([eng.ListTableInfo('t', [list(r) for r in A], None)]))
+                    elif route == 'join_table':
+                        # the anomaly sits in the JOIN table, the input table is rectangular
+                        eng.query_table('select a1, bNR join b on a1 == b1', [['v', 'v'], ['w', 'w']], [], warns, [['v'] + list(r) for r in A])        # every B record has its key field: widths are 1 + ws
                     elif route == 'csv':
                         text = refcsv.ref_write(A, ',', 'simple')
                         eng.query('select NR', rc.CSVRecordIterator(io.StringIO(text), None, ',', 'simple'), eng.TableWriter([]), warns)
@@ -219,8 +225,9 @@ def part_widths(sh, res):
                     else:
                         m = re.search(r'record (\d+) -> (\d+) fields, record (\d+) -> (\d+) fields', fc[0])
                         got = [(int(m.group(1)), int(m.group(2))), (int(m.group(3)), int(m.group(4)))] if m else None
-                        if got != firsts[:2]:
-                            res.violation('field-count-warning-cites-wrong-records', case, firsts[:2], fc[0])
+                        want = [(i, w + 1) for i, w in firsts[:2]] if route == 'join_table' else firsts[:2]
+                        if got != want:
+                            res.violation('field-count-warning-cites-wrong-records', case, want, fc[0])
                 else:
                     res.feat('rectangular_tables')
                     if fc:
